@@ -62,6 +62,22 @@ type Cfg struct {
 	Prefer    func(f *wx.Failure) bool // which failure to report when several oracles fire on the same state
 	// PreloadDump, if set, provides an entity dump that is loaded into the fresh world before the history starts.
 	PreloadDump func() *ecs.EntityDump
+	// Prologue is applied to the fresh world before the exploration starts (a constructed, non-initial seed state).
+	Prologue []wx.Op
+	// Focus restricts single-entity operations and relation targets to these slots (nil: all slots).
+	Focus []int
+}
+
+func (c *Cfg) inFocus(s int) bool {
+	if c.Focus == nil {
+		return true
+	}
+	for _, f := range c.Focus {
+		if f == s {
+			return true
+		}
+	}
+	return false
 }
 
 // Name implements wx.Scenario.
